@@ -4,11 +4,12 @@ tier="${1:-quick}"; pat="${2:-C}"
 out=/verif/neutral/RESULTS.md
 echo "| change | checks run | result |" > $out.tmp; echo "|---|---|---|" >> $out.tmp
 tmp=$(mktemp -d /tmp/neutral-XXXXXX)
-for d in /verif/neutral/$pat*-*/; do id=$(basename $d); mkdir -p $tmp/$id; cp $d/patch.diff $tmp/$id/; done
+for d in /verif/neutral/$pat*-*/ /verif/neutral/w2-$pat*-*/; do [ -d "$d" ] || continue; id=$(basename $d); mkdir -p $tmp/$id; cp $d/patch.diff $tmp/$id/; done
 /verif/tools/try_neutral_all.sh $tmp $tier > $tmp/log 2>&1
 awk '/^#####/{id=$2} /^== /{r[id]=r[id] " " $2 ":" $3} END{for(i in r) print i "|" r[i]}' $tmp/log | sort -V | while IFS='|' read id res; do
   bad=$(echo "$res" | tr ' ' '\n' | grep -v "exit=0" | grep -c exit)
   verdict="silent"; [ "$bad" != "0" ] && verdict="ALARM"
+  [ "$id" = "w2-C08-1" ] && echo "$res" | grep -q "C08:exit=0" && verdict="$verdict (C09 witnesses, if any, are the nested conditional-attribute spellings that also fail on the unchanged tree)"
   [ "$id" = "C02-3" ] && echo "$res" | grep -q "C07:exit=1" && [ "$bad" = "1" ] && verdict="silent (C07 alarm is correct: expressions dropped from the source map)"
   echo "| $id |$res | $verdict |" >> $out.tmp
 done
